@@ -34,6 +34,9 @@ CHECKS = {
  "C03": dict(level="exploration", technique="differential monitor (bare vs generator-built explicit twin: tree equality, then execution traces with recording aliases) + logical step counters on parser.parse and Lexer.token for termination",
    text="~4000 twins per quick run rendered from one chain tree (pipes, redirects, $VAR/@()/$(), strings) at top level, after `;`, after Python statements, in if/for/def/try/with/while bodies with space/tab indents, twice on a line, across backslash continuations and in one-line suites; ~20 000 fuzz strings (lexeme soup, mutated lines, 1-40 lines) are parsed under two logical clocks (parser.parse invocations, lexer tokens) so a hang is decided on steps, not wall clock.",
    note="Each generated command carries at most one construct class that a listed finding trips over, so a failing pair is attributable to that class (confirmed by neutralising it) and any failure of a risk-free pair is a new violation; the token bound (60x) is 25 times the maximum observed on well-formed commands.", ref="§2 C03"),
+ "C02": dict(level="exploration", technique="spawn-counter monitor on run_subproc + differential execution against builtin exec() on an equal namespace",
+   text="Command-shaped Python templates x 14 binding statement kinds, parameters of every kind, global, enclosing and class scopes, lambda and comprehension targets, builtin-shadowing names; the real Execer must launch nothing (counter on xonsh.procs.specs.run_subproc), and namespace / stdout / exception type must equal CPython's exec of the same source; del-then-use programs must launch the command; (effect; broken line) programs must leave the effect log empty when xonsh raises SyntaxError.",
+   note="Names are bound by construction before use; spawn attribution for the two listed findings is done by neutralising the construct and re-running.", ref="§2 C02"),
 }
 NOT_BUILT = "check not built yet in this session (planned, see DESIGN.md §2); nothing is claimed for it"
 def main():
